@@ -656,7 +656,7 @@ func (m *Msg) EnvelopeFrom(from string) error {
 // References:
 //   - https://datatracker.ietf.org/doc/html/rfc5322#section-3.4
 func (m *Msg) EnvelopeFromFormat(name, addr string) error {
-	return m.SetAddrHeader(HeaderEnvelopeFrom, fmt.Sprintf(`"%s" <%s>`, name, addr))
+	return m.SetAddrHeader(HeaderEnvelopeFrom, fmt.Sprintf(`"%s" <%s>`, quotedPairs(name), addr))
 }
 
 // From sets the "FROM" address in the mail body for the Msg.
@@ -691,7 +691,7 @@ func (m *Msg) From(from string) error {
 // References:
 //   - https://datatracker.ietf.org/doc/html/rfc5322#section-3.6.2
 func (m *Msg) FromFormat(name, addr string) error {
-	return m.SetAddrHeader(HeaderFrom, fmt.Sprintf(`"%s" <%s>`, name, addr))
+	return m.SetAddrHeader(HeaderFrom, fmt.Sprintf(`"%s" <%s>`, quotedPairs(name), addr))
 }
 
 // To sets one or more "TO" addresses in the mail body for the Msg.
@@ -741,7 +741,7 @@ func (m *Msg) AddTo(rcpt string) error {
 // References:
 //   - https://datatracker.ietf.org/doc/html/rfc5322#section-3.6.3
 func (m *Msg) AddToFormat(name, addr string) error {
-	return m.addAddr(HeaderTo, fmt.Sprintf(`"%s" <%s>`, name, addr))
+	return m.addAddr(HeaderTo, fmt.Sprintf(`"%s" <%s>`, quotedPairs(name), addr))
 }
 
 // ToIgnoreInvalid sets one or more "TO" addresses in the mail body for the Msg, ignoring any invalid addresses.
@@ -834,7 +834,7 @@ func (m *Msg) AddCc(rcpt string) error {
 // References:
 //   - https://datatracker.ietf.org/doc/html/rfc5322#section-3.6.3
 func (m *Msg) AddCcFormat(name, addr string) error {
-	return m.addAddr(HeaderCc, fmt.Sprintf(`"%s" <%s>`, name, addr))
+	return m.addAddr(HeaderCc, fmt.Sprintf(`"%s" <%s>`, quotedPairs(name), addr))
 }
 
 // CcIgnoreInvalid sets one or more "CC" (carbon copy) addresses in the mail body for the Msg, ignoring any
@@ -929,7 +929,7 @@ func (m *Msg) AddBcc(rcpt string) error {
 // References:
 //   - https://datatracker.ietf.org/doc/html/rfc5322#section-3.6.3
 func (m *Msg) AddBccFormat(name, addr string) error {
-	return m.addAddr(HeaderBcc, fmt.Sprintf(`"%s" <%s>`, name, addr))
+	return m.addAddr(HeaderBcc, fmt.Sprintf(`"%s" <%s>`, quotedPairs(name), addr))
 }
 
 // BccIgnoreInvalid sets one or more "BCC" (blind carbon copy) addresses in the mail body for the Msg,
@@ -1006,7 +1006,7 @@ func (m *Msg) ReplyTo(addr string) error {
 // References:
 //   - https://datatracker.ietf.org/doc/html/rfc5322#section-3.6.2
 func (m *Msg) ReplyToFormat(name, addr string) error {
-	return m.ReplyTo(fmt.Sprintf(`"%s" <%s>`, name, addr))
+	return m.ReplyTo(fmt.Sprintf(`"%s" <%s>`, quotedPairs(name), addr))
 }
 
 // Subject sets the "Subject" header for the Msg, specifying the topic of the message.
@@ -1276,7 +1276,7 @@ func (m *Msg) RequestMDNAddTo(rcpt string) error {
 // References:
 //   - https://datatracker.ietf.org/doc/html/rfc8098
 func (m *Msg) RequestMDNAddToFormat(name, addr string) error {
-	return m.RequestMDNAddTo(fmt.Sprintf(`"%s" <%s>`, name, addr))
+	return m.RequestMDNAddTo(fmt.Sprintf(`"%s" <%s>`, quotedPairs(name), addr))
 }
 
 // GetSender returns the currently set envelope "FROM" address for the Msg. If no envelope
@@ -2506,6 +2506,15 @@ func (m *Msg) SendErrorIsTemp() bool {
 //   - The error encountered during message delivery, or nil if no error occurred.
 func (m *Msg) SendError() error {
 	return m.sendError
+}
+
+// quotedPairs escapes the backslashes and double quotes of a display name, so that the name can be
+// placed in a RFC 5322 quoted-string without being altered (or cut short) by the address parser.
+func quotedPairs(name string) string {
+	if !strings.ContainsAny(name, "\\\"") {
+		return name
+	}
+	return strings.NewReplacer("\\", "\\\\", "\"", "\\\"").Replace(name)
 }
 
 // addAddr adds an additional address to the given addrHeader of the Msg.
